@@ -104,6 +104,10 @@ type Server struct {
 	// Unversioned: lists carry no collection resourceVersion (legal; client-go's
 	// fake clientsets do this), and a watch from "" starts at the present
 	Unversioned bool
+	// StaleDeleteFrames: a DELETED frame carries the object as it was last
+	// stored, resourceVersion included (the deletion itself still has its own
+	// position in the server's history)
+	StaleDeleteFrames bool
 	// OpaqueVersions: the collection resourceVersion of a list is an opaque
 	// token ("rv-<n>": what the API conventions say it is), which Watch accepts
 	// back; object versions stay numeric.  Every second server New() makes has
@@ -282,6 +286,9 @@ func (s *Server) Delete(ns, nm int) *kobj.Obj {
 	o.ID = s.nextID
 	s.nextID++
 	o.RV = strconv.Itoa(s.version)
+	if s.StaleDeleteFrames {
+		o.RV = old.RV
+	}
 	delete(s.objects, k)
 	s.append(LogEntry{s.version, watch.Deleted, &o})
 	return &o
@@ -328,7 +335,7 @@ func (s *Server) List(ctx context.Context, opts metav1.ListOptions) (o runtime.O
 	return s.list(ctx, opts)
 }
 
-func (s *Server) list(ctx context.Context, _ metav1.ListOptions) (runtime.Object, error) {
+func (s *Server) list(ctx context.Context, opts metav1.ListOptions) (runtime.Object, error) {
 	s.mu.Lock()
 	s.nlist++
 	n := s.nlist
@@ -389,6 +396,15 @@ func (s *Server) list(ctx context.Context, _ metav1.ListOptions) (runtime.Object
 	v := s.version
 	objs := s.objectsLocked()
 	s.mu.Unlock()
+	// a list that names a resourceVersion asks for a state "not older than"
+	// it, which a server may answer from a cache that lags: this one answers
+	// with the state AT that version.  (A list without one is a consistent
+	// read: the present.)
+	if rv := strings.TrimPrefix(opts.ResourceVersion, "rv-"); rv != "" && rv != "0" {
+		if v0, err := strconv.Atoi(rv); err == nil && v0 >= 0 && v0 <= v {
+			v, objs = v0, s.ObjectsAt(v0)
+		}
+	}
 	if earlyV >= 0 {
 		v, objs = earlyV, early
 	}
